@@ -8,6 +8,8 @@ Because the text is produced from the tree by the grammar's own precedence/assoc
 tree the text was rendered from".
 """
 
+from decimal import Decimal
+
 # level numbers: higher binds tighter. kind: 'left' | 'nonassoc' | 'prefix' | 'type' | 'path' | 'postfix'
 COMPARISONS = ['=', '!=', '<', '<=', '>', '>=', 'eq', 'ne', 'lt', 'le', 'gt', 'ge', 'is', '<<', '>>']
 
@@ -52,7 +54,7 @@ TYPE_KEYWORDS = {'instance': 'instance of', 'treat': 'treat as', 'castable': 'ca
 
 def level(node, tbl):
     t = node[0]
-    if t in ('num', 'name', 'var', 'str', 'dot', 'call', 'paren', 'root', 'parent'):
+    if t in ('num', 'name', 'var', 'str', 'lit', 'pname', 'dot', 'call', 'paren', 'root', 'parent'):
         return ATOM_LEVEL
     if t == 'un':
         return tbl['neg'][0]
@@ -94,9 +96,30 @@ def gen_tree(rng, version, depth, want='any', level_hint=None):
             gen_tree(rng, version, depth - 1, level_hint=tbl[op][0])]
 
 
+def _lit(text, value):
+    return ['lit', text, '(%r)' % (value,)]
+
+
+# literals whose `source` needs care: decimals without fraction digits or with many, quotes inside strings, doubles
+LITERALS_ANY = [_lit('12.', Decimal('12')), _lit('.5', Decimal('.5')), _lit('1.50', Decimal('1.50')),
+                _lit('0.00000001', Decimal('0.00000001')), _lit('123456789012345678901234.5', Decimal('123456789012345678901234.5')),
+                _lit('\'a"b\'', 'a"b'), _lit('"it\'s"', "it's"), _lit("'a b'", 'a b')]
+LITERALS_2 = [_lit("'it''s'", "it's"), _lit('"q""r"', 'q"r'), _lit("'x''\"y'", 'x\'"y'), _lit("'a\nb'", 'a\nb'),
+              _lit('1e0', 1.0), _lit('2.5E-3', 0.0025), _lit('1e2', 100.0), _lit('1.5e300', 1.5e300)]
+
+
+KEYWORD_PREFIXES = ['p', 'div', 'and', 'or', 'mod', 'eq', 'to', 'union', 'is', 'idiv', 'except', 'lt']
+NAMESPACES = {k: 'http://example.com/ns/' + k for k in KEYWORD_PREFIXES}
+
+
 def gen_atom(rng, version, want='any'):
+    if rng.random() < 0.05:
+        # a prefixed name whose prefix is spelled like an operator keyword is still a name test
+        return ['pname', rng.choice(KEYWORD_PREFIXES), rng.choice(['a', 'b', 'div', 'x'])]
     if want == 'step':
         return rng.choice([['name', rng.choice('abc')], ['name', rng.choice('abc')], ['dot']])
+    if rng.random() < 0.08:
+        return list(rng.choice(LITERALS_ANY + (LITERALS_2 if version != '1.0' else [])))
     k = rng.random()
     if k < 0.45:
         return ['num', rng.randint(0, 9)]
@@ -126,7 +149,7 @@ def need_parens(child, parent, side, tbl, version):
         elif kind == 'path':
             # E1/E2: E1 is a relative path (same level), E2 a step (postfix expression or axis step)
             need = pl if side == 'L' else tbl['['][0]
-            if side == 'R' and child[0] in ('num', 'str', 'var', 'call'):
+            if side == 'R' and child[0] in ('num', 'str', 'lit', 'var', 'call'):
                 return False        # primary expressions are steps
         else:
             need = pl + 1
@@ -166,6 +189,10 @@ def tokens(node, tbl, version, rng=None, redundant=0.0):
         return ['$' + node[1]]
     if t == 'str':
         return ["'%s'" % node[1]]
+    if t == 'lit':
+        return [node[1]]
+    if t == 'pname':
+        return ['%s:%s' % (node[1], node[2])]
     if t == 'dot':
         return ['.']
     if t == 'root':
@@ -196,6 +223,10 @@ def expected_tree(node):
         return '($ (%s))' % node[1]
     if t == 'str':
         return "('%s')" % node[1]
+    if t == 'lit':
+        return node[2]
+    if t == 'pname':
+        return '(: (%s) (%s))' % (node[1], node[2])
     if t == 'dot':
         return '(.)'
     if t == 'root':
